@@ -335,6 +335,7 @@ func (o *Orch) runShard(i, n int) {
 			o.mu.Lock()
 			o.Merged.Inconclusive["resource"]++
 			o.mu.Unlock()
+			fmt.Printf("RESOURCE property=%s kind=%s case=%s\n", o.P.ID, kind, clipN(string(cs), 400))
 		case code == ExitHang:
 			o.mu.Lock()
 			o.Merged.Inconclusive["hang"]++
